@@ -337,7 +337,7 @@ func (c *Channel) doPause(pause bool) error {
 		}
 	}
 	c.RUnlock()
-	verif.Ev("CPauseEnd", "c", vc(c), "p", pause)
+	verif.Ev("CPauseEnd", "c", vc(c), "p", pause, "now", time.Now().UnixNano())
 	return nil
 }
 
@@ -362,7 +362,7 @@ func (c *Channel) PutMessage(m *Message) error {
 }
 
 func (c *Channel) put(m *Message) error {
-	verif.Ev("CPutBegin", "c", vc(c), "id", vid(m.ID), "att", m.Attempts)
+	verif.Ev("CPutBegin", "c", vc(c), "id", vid(m.ID), "att", m.Attempts, "now", time.Now().UnixNano())
 	if c.topologyAwareConsumption {
 		// Attempt zone local, region local and finally the memory channel
 		// we do this to ensure that we preferentially deliver messages based on toplogy
